@@ -603,7 +603,11 @@ Definition step (s : sys) (e : event) : res sys :=
           Acc (put_actor s a (set_a_phase (PhBetween WExit CbFinished) x))
       | _ =>
           match deq x with
-          | None => Rej 706
+          | None =>
+              (* an actor of the library itself (a broker): its mailbox is not modelled *)
+              check Nat.eqb (sc_ty (a_cfg x)) 9 else 706 ;;
+              check (match pk with PkTask => true | _ => false end) else 709 ;;
+              Acc s
           | Some (p, x1) =>
               match p, pk with
               | PTask o, PkTask =>
@@ -939,7 +943,22 @@ Definition step (s : sys) (e : event) : res sys :=
       Acc (put_actor (put_op s o (set_op_done true (new_op XPing a))) a (enq false (PTask o) x))
   | EvSubscribe _ _ _ => Acc s
   | EvDeliver _ _ _ => Acc s
-  | EvPubCopy _ _ _ => Acc s
+  | EvPubCopy _ o _ _ _ h =>
+      (* the broker sends one clone of a publication through the strong sender [h] it holds
+         for the duration of the fan-out (waiting path: the broker may be parked); a send to a
+         terminated subscriber fails and the broker ignores that *)
+      check (match ops s o with None => true | Some _ => false end) else 3601 ;;
+      match handles s h with
+      | Some (a, KSender) =>
+          x <- get_actor s a 3602 ;;
+          let q := set_op_done true (new_op XCopy a) in
+          if negb (a_rx x) then Acc (put_op s o q)
+          else Acc (put_actor (put_op s o q) a (enq true (PTask o) x))
+      | _ => Rej 3603
+      end
+  | EvBroker _ _ _ _ => Acc s
+  | EvTopicOp _ _ _ _ _ => Acc s
+  | EvTopicRet _ _ => Acc s
   end.
 
 Fixpoint run (s : sys) (tr : list event) : res sys :=
